@@ -29,6 +29,7 @@ func checkC02(rep *Report, rng *Rng, tier string) {
 		n = 4000
 	}
 	modelOn = true
+	probeNonUTF8Name(rep)
 	rep.Rule = "seeded histories of mutations over 1-3 collections (4 comparators) with Flush at arbitrary positions, collection creation/removal, evictions, and re-opens after which the history continues on the re-opened store; after EVERY step a fresh Store is opened on a copy of the current file image and its full contents (names, keys, values, priorities, totals) are compared with the reference state of the last successful Flush; non-trivial = at least one flush and 8 ops"
 	HistoryLoop(rep, rng, n, func(r *Rng, i int) (RunCfg, []Op, string) {
 		d, ops := genC02(r, i)
